@@ -345,3 +345,36 @@ package protobuf
 //@   modifies *
 //@   inlines FromSubChannelProposalAccMsg, ToSubChannelProposalAccMsg, FromBaseChannelProposalAcc, ToBaseChannelProposalAcc
 //@   ensures result != nil && result.ProposalID == x.ProposalID && result.NonceShare == x.NonceShare
+
+// The common part of the proposals as contracts (so that the proposal messages compose them), then the sub-channel and virtual
+// channel proposals: parent IDs and index maps element by element; the address maps they carry are not compared (see above).
+//@ pred basePropWF(x client.BaseChannelProposal) = x.InitBals != nil && x.App != nil && x.InitData != nil && validAlloc(*x.InitBals) && nonNilAssets(x.InitBals.Assets) && nonNilBalances(x.InitBals.Balances) &&
+//@   nonNilLocked(x.InitBals.Locked) && len(x.InitBals.Backends) == len(x.InitBals.Assets) && nonNilBalances(x.FundingAgreement) &&
+//@   (forall i int :: 0 <= i && i < len(x.InitBals.Backends) ==> 0 <= x.InitBals.Backends[i] && x.InitBals.Backends[i] <= 4294967295) &&
+//@   (forall i int :: 0 <= i && i < len(x.FundingAgreement) ==> nonNeg(x.FundingAgreement[i])) && (!isNoApp(x.App) ==> marshalLen(appDef(x.App)) > 0)
+//@ pred fromBase(p *BaseChannelProposal, x client.BaseChannelProposal) = p != nil && len(p.ProposalId) == 32 && idBytes(p.ProposalId) == x.ProposalID && len(p.NonceShare) == 32 && idBytes(p.NonceShare) == x.NonceShare &&
+//@   len(p.Aux) == 256 && auxBytes(p.Aux) == x.Aux && p.ChallengeDuration == x.ChallengeDuration && fromAlloc(p.InitBals, *x.InitBals) && p.FundingAgreement != nil &&
+//@   len(p.FundingAgreement.Balances) == len(x.FundingAgreement) && (forall i int :: 0 <= i && i < len(x.FundingAgreement) ==> fromBal(p.FundingAgreement.Balances[i], x.FundingAgreement[i])) &&
+//@   (isNoApp(x.App) ==> len(p.App) == 0) && (!isNoApp(x.App) ==> len(p.App) == marshalLen(appDef(x.App)) && bytesId(p.App) == marshalOf(appDef(x.App)) && bytesId(p.InitData) == marshalOf(x.InitData))
+//@ func FromBaseChannelProposal
+//@   noframe
+//@   requires basePropWF(prop)
+//@   ensures err == nil ==> protoProp != nil && fresh(protoProp) && fromBase(protoProp, prop)
+//@ pred toBase(y client.BaseChannelProposal, p *BaseChannelProposal) = (len(p.ProposalId) == 32 ==> y.ProposalID == idBytes(p.ProposalId)) && (len(p.NonceShare) == 32 ==> y.NonceShare == idBytes(p.NonceShare)) &&
+//@   (len(p.Aux) == 256 ==> y.Aux == auxBytes(p.Aux)) && y.ChallengeDuration == p.ChallengeDuration && (p.InitBals != nil ==> y.InitBals != nil && toAlloc(y.InitBals, p.InitBals)) &&
+//@   (p.FundingAgreement != nil ==> pbBals(y.FundingAgreement, p.FundingAgreement)) && (len(p.App) == 0 ==> isNoApp(y.App)) && y.InitData != nil &&
+//@   (len(p.App) > 0 ==> allocated(payload(y.InitData)) && unmarshalledFrom(y.InitData) == bytesId(p.InitData))
+//@ func ToBaseChannelProposal
+//@   noframe
+//@   callsite Resolve : protoProp != nil && unmarshalledFrom(def) == bytesId(protoProp.App)
+//@   ensures err == nil && protoProp != nil ==> toBase(prop, protoProp)
+//@ pred pbBaseEq(y client.BaseChannelProposal, x client.BaseChannelProposal) = y.ProposalID == x.ProposalID && y.NonceShare == x.NonceShare && y.ChallengeDuration == x.ChallengeDuration && y.Aux == x.Aux &&
+//@   y.InitBals != nil && allocRT(*y.InitBals, *x.InitBals) && len(y.FundingAgreement) == len(x.FundingAgreement) &&
+//@   (forall i, j int :: 0 <= i && i < len(x.FundingAgreement) && 0 <= j && j < len(x.FundingAgreement[i]) ==> len(y.FundingAgreement[i]) == len(x.FundingAgreement[i]) && y.FundingAgreement[i][j] != nil && val(y.FundingAgreement[i][j]) == val(x.FundingAgreement[i][j])) &&
+//@   (isNoApp(x.App) ==> isNoApp(y.App)) && y.InitData != nil && (!isNoApp(x.App) ==> unmarshalledFrom(y.InitData) == marshalOf(x.InitData))
+//@ func verifPBSubChannelProposalMsg
+//@   requires x != nil && basePropWF(x.BaseChannelProposal) && streaming()
+//@   modifies *
+//@   inlines FromSubChannelProposalMsg, ToSubChannelProposalMsg
+//@   ensures fromErr == nil && toErr == nil ==> y != nil && y.Parent == x.Parent && pbBaseEq(y.BaseChannelProposal, x.BaseChannelProposal)
+
